@@ -1104,4 +1104,302 @@ theorem unpackTree_dup (ord : List FileEnt → List FileEnt) (fl : Flags) (t : T
   rw [hs]
   rfl
 
+/-! ## G. skipped entries are reported, everything else is unpacked (when the create walk does not fail) -/
+
+mutual
+/-- names of the entries a walk refuses: insane name, directly below the root or a visited directory -/
+def skipped : TNode → List Bytes
+  | .mk name k _ _ ch => if !isFilenameSane name then [name] else if k = .dir then skippedL ch else []
+def skippedL : List TNode → List Bytes
+  | [] => []
+  | c :: cs => skipped c ++ skippedL cs
+end
+
+def skippedRoot (t : TNode) : List Bytes := if t.kind = .dir then skippedL t.children else skipped t
+
+theorem Out.seq_ok {a b : Out} (h : (a.seq b).err = none) :
+    a.err = none ∧ b.err = none ∧ (a.seq b).evs = a.evs ++ b.evs := by
+  unfold Out.seq at h ⊢
+  split at h
+  · rename_i e he; rw [he] at h; cases h
+  · rename_i he; simp only at h; simp [he, h]
+
+/-- the calls that make a new name: `mkdir`, `symlink`, `mknod`, `open(O_CREAT|O_EXCL)` -/
+def Syscall.isCreate : Syscall → Bool
+  | .mkdir _ _ | .symlink _ _ | .mknod _ _ _ _ | .openExcl _ _ => true
+  | _ => false
+
+/-- the walk made a creating call for the node `(c, k)` -/
+def CreatedIn (evs : List Ev) (c : List Bytes) (k : Kind) : Prop :=
+  ∃ sc, Ev.sys sc ∈ evs ∧ sc.path = joinSlash c ∧ Compat sc k ∧ sc.isCreate = true
+
+theorem follows_createNode (k : Kind) (p pl : Bytes) (a : Attr) (fl : Flags) : (createNode k p pl a fl).isCreate = true := by
+  cases k <;> simp [createNode, Syscall.isCreate]
+
+theorem create_dir_is_mkdir {sc : Syscall} (h1 : sc.isCreate = true) (h2 : Compat sc .dir) : ∃ m, sc = .mkdir sc.path m := by
+  cases sc <;> simp_all [Syscall.isCreate, Compat, Syscall.path]
+
+mutual
+theorem createDfs_complete (rn : Bytes) (fl : Flags) : ∀ (x : TNode) (comps : List Bytes),
+    (createDfs rn fl comps x).err = none →
+      (∀ c k, (c, k) ∈ visit comps x → CreatedIn (createDfs rn fl comps x).evs c k) ∧
+      (∀ n ∈ skipped x, Ev.skip n ∈ (createDfs rn fl comps x).evs)
+  | .mk name k pl a ch, comps, h => by
+    unfold createDfs at h ⊢
+    unfold visit skipped
+    by_cases hs : (!isFilenameSane name) = true
+    · simp [hs]
+    · rw [if_neg hs] at h
+      simp only [if_neg hs]
+      cases hp : pathOf rn comps with
+      | error e => rw [hp] at h; cases h
+      | ok p =>
+        rw [hp] at h
+        simp only at h ⊢
+        obtain ⟨_, hb, hevs⟩ := Out.seq_ok h
+        obtain ⟨_, _, hpj⟩ := pathOf_ok hp
+        rw [hevs]
+        constructor
+        · intro c k' hm
+          simp only [List.mem_cons, Prod.mk.injEq] at hm
+          rcases hm with ⟨rfl, rfl⟩ | hm
+          · exact ⟨createNode k' p pl a fl, by simp, by rw [path_createNode, hpj], compat_createNode .., follows_createNode ..⟩
+          · by_cases hk : k = .dir
+            · rw [if_pos hk] at hm hb ⊢
+              obtain ⟨sc, h1, h2⟩ := (createList_complete rn fl ch comps hb).1 c k' hm
+              exact ⟨sc, by simp [h1], h2⟩
+            · rw [if_neg hk] at hm; simp at hm
+        · intro n hn
+          by_cases hk : k = .dir
+          · rw [if_pos hk] at hn hb ⊢
+            have := (createList_complete rn fl ch comps hb).2 n hn
+            simp [this]
+          · rw [if_neg hk] at hn; simp at hn
+theorem createList_complete (rn : Bytes) (fl : Flags) : ∀ (l : List TNode) (anc : List Bytes),
+    (createList rn fl anc l).err = none →
+      (∀ c k, (c, k) ∈ visitL anc l → CreatedIn (createList rn fl anc l).evs c k) ∧
+      (∀ n ∈ skippedL l, Ev.skip n ∈ (createList rn fl anc l).evs)
+  | [], _, _ => by simp [visitL, skippedL]
+  | x :: xs, anc, h => by
+    unfold createList at h ⊢
+    unfold visitL skippedL
+    obtain ⟨ha, hb, hevs⟩ := Out.seq_ok h
+    rw [hevs]
+    have ih1 := createDfs_complete rn fl x _ ha
+    have ih2 := createList_complete rn fl xs anc hb
+    constructor
+    · intro c k hm
+      rcases List.mem_append.1 hm with h1 | h1
+      · obtain ⟨sc, h3, h4⟩ := ih1.1 c k h1
+        exact ⟨sc, by simp [h3], h4⟩
+      · obtain ⟨sc, h3, h4⟩ := ih2.1 c k h1
+        exact ⟨sc, by simp [h3], h4⟩
+    · intro n hn
+      rcases List.mem_append.1 hn with h1 | h1
+      · simp [ih1.2 n h1]
+      · simp [ih2.2 n h1]
+end
+
+theorem restoreFstree_complete (fl : Flags) (t : TNode) (h : (restoreFstree fl t).err = none) :
+    (∀ c k, (c, k) ∈ visitRoot t → CreatedIn (restoreFstree fl t).evs c k) ∧
+    (∀ n ∈ skippedRoot t, Ev.skip n ∈ (restoreFstree fl t).evs) := by
+  unfold restoreFstree at h ⊢
+  unfold visitRoot skippedRoot
+  split
+  · rename_i hk
+    rw [if_pos hk] at h
+    exact createList_complete _ fl _ [] h
+  · rename_i hk
+    rw [if_neg hk] at h
+    exact createDfs_complete _ fl t [] h
+
+/-! ## H. order: a path's prefixes are made by earlier `mkdir`s -/
+
+/-- all proper prefixes of `c` that are longer than `n` components have their `mkdir` in `l₁` -/
+def PrefMadeIn (l₁ : List Ev) (n : Nat) (c : List Bytes) : Prop :=
+  ∀ pre, pre <+: c → n < pre.length → pre ≠ c → ∃ m, Ev.sys (.mkdir (joinSlash pre) m) ∈ l₁
+
+theorem PrefMadeIn.mono {l₁ l₁' : List Ev} {n : Nat} {c : List Bytes} (h : PrefMadeIn l₁ n c) (hs : ∀ e ∈ l₁, e ∈ l₁') :
+    PrefMadeIn l₁' n c := by
+  intro pre h1 h2 h3
+  obtain ⟨m, hm⟩ := h pre h1 h2 h3
+  exact ⟨m, hs _ hm⟩
+
+theorem Out.seq_evs_none {a b : Out} (h : a.err = none) : (a.seq b).evs = a.evs ++ b.evs := by
+  unfold Out.seq; rw [h]
+
+theorem Out.seq_evs_some {a b : Out} {e : Err} (h : a.err = some e) : (a.seq b).evs = a.evs := by
+  unfold Out.seq; rw [h]
+
+/-- position of an element of `A ++ B` -/
+theorem split_append {α : Type} {A B l₁ l₂ : List α} {x : α} (h : A ++ B = l₁ ++ x :: l₂) :
+    (∃ r, A = l₁ ++ x :: r) ∨ (∃ a', l₁ = A ++ a' ∧ B = a' ++ x :: l₂) := by
+  rcases List.append_eq_append_iff.1 h with ⟨a', h1, h2⟩ | ⟨b', h1, h2⟩
+  · exact Or.inr ⟨a', h1, h2⟩
+  · cases b' with
+    | nil =>
+      simp at h1 h2
+      exact Or.inr ⟨[], by simp [h1], by simp [h2]⟩
+    | cons y ys =>
+      simp at h2
+      obtain ⟨rfl, _⟩ := h2
+      exact Or.inl ⟨ys, h1⟩
+
+mutual
+theorem createDfs_ordered (rn : Bytes) (fl : Flags) : ∀ (x : TNode) (comps : List Bytes) (l₁ : List Ev) (sc : Syscall)
+    (l₂ : List Ev), (createDfs rn fl comps x).evs = l₁ ++ Ev.sys sc :: l₂ →
+      ∃ c, sc.path = joinSlash c ∧ AllGood c ∧ comps <+: c ∧ (comps.length - 1 < comps.length → PrefMadeIn l₁ (comps.length - 1) c)
+  | .mk name k pl a ch, comps, l₁, sc, l₂, h => by
+    unfold createDfs at h
+    by_cases hs : (!isFilenameSane name) = true
+    · rw [if_pos hs] at h
+      cases l₁ <;> simp at h
+    · rw [if_neg hs] at h
+      cases hp : pathOf rn comps with
+      | error e => rw [hp] at h; cases l₁ <;> simp at h
+      | ok p =>
+        rw [hp] at h
+        simp only at h
+        obtain ⟨_, hgood, hpj⟩ := pathOf_ok hp
+        rw [Out.seq_evs_none rfl] at h
+        cases l₁ with
+        | nil =>
+          simp at h
+          obtain ⟨h1, _⟩ := h
+          subst h1
+          refine ⟨comps, by rw [path_createNode, hpj], hgood, List.prefix_refl _, ?_⟩
+          intro _ pre hp1 hp2 hp3
+          have := hp1.length_le
+          have : pre = comps := hp1.eq_of_length (by omega)
+          exact absurd this hp3
+        | cons e l₁' =>
+          simp at h
+          obtain ⟨he, hrest⟩ := h
+          by_cases hk : k = .dir
+          · rw [if_pos hk] at hrest
+            obtain ⟨c, h1, hgc, h2, h3⟩ := createList_ordered rn fl ch comps l₁' sc l₂ hrest
+            refine ⟨c, h1, hgc, h2.1, ?_⟩
+            intro _ pre hp1 hp2 hp3
+            by_cases hl : comps.length < pre.length
+            · obtain ⟨m, hm⟩ := h3 pre hp1 hl hp3
+              exact ⟨m, List.mem_cons_of_mem _ hm⟩
+            · -- pre = comps: its mkdir is the head
+              have : pre = comps := by
+                have hq : pre <+: comps := List.prefix_of_prefix_length_le hp1 h2.1 (by omega)
+                exact hq.eq_of_length (by omega)
+              subst this
+              subst hk
+              exact ⟨0o755, by rw [← he]; simp [createNode, hpj]⟩
+          · rw [if_neg hk] at hrest
+            cases l₁' <;> simp at hrest
+theorem createList_ordered (rn : Bytes) (fl : Flags) : ∀ (l : List TNode) (anc : List Bytes) (l₁ : List Ev) (sc : Syscall)
+    (l₂ : List Ev), (createList rn fl anc l).evs = l₁ ++ Ev.sys sc :: l₂ →
+      ∃ c, sc.path = joinSlash c ∧ AllGood c ∧ (anc <+: c ∧ anc.length < c.length) ∧ PrefMadeIn l₁ anc.length c
+  | [], _, l₁, _, _, h => by
+    unfold createList at h
+    cases l₁ <;> simp at h
+  | x :: xs, anc, l₁, sc, l₂, h => by
+    unfold createList at h
+    cases he : (createDfs rn fl (anc ++ [x.name]) x).err with
+    | some e =>
+      rw [Out.seq_evs_some he] at h
+      obtain ⟨c, h1, hgc, h2, h3⟩ := createDfs_ordered rn fl x _ l₁ sc l₂ h
+      have hl := h2.length_le
+      simp at hl h3
+      exact ⟨c, h1, hgc, ⟨List.IsPrefix.trans (List.prefix_append anc [x.name]) h2, by omega⟩, h3⟩
+    | none =>
+      rw [Out.seq_evs_none he] at h
+      rcases split_append h with ⟨r, hA⟩ | ⟨a', hl₁, hB⟩
+      · obtain ⟨c, h1, hgc, h2, h3⟩ := createDfs_ordered rn fl x _ l₁ sc r hA
+        have hl := h2.length_le
+        simp at hl h3
+        exact ⟨c, h1, hgc, ⟨List.IsPrefix.trans (List.prefix_append anc [x.name]) h2, by omega⟩, h3⟩
+      · obtain ⟨c, h1, hgc, h2, h3⟩ := createList_ordered rn fl xs anc a' sc l₂ hB
+        exact ⟨c, h1, hgc, h2, h3.mono (fun e he' => by rw [hl₁]; simp [he'])⟩
+end
+
+theorem restoreFstree_ordered (fl : Flags) (t : TNode) (l₁ : List Ev) (sc : Syscall) (l₂ : List Ev)
+    (h : (restoreFstree fl t).evs = l₁ ++ Ev.sys sc :: l₂) : ∃ c, sc.path = joinSlash c ∧ AllGood c ∧ PrefMadeIn l₁ 0 c := by
+  unfold restoreFstree at h
+  split at h
+  · obtain ⟨c, h1, hgc, _, h3⟩ := createList_ordered _ fl _ [] l₁ sc l₂ h
+    exact ⟨c, h1, hgc, h3⟩
+  · obtain ⟨c, h1, _, _⟩ := createDfs_ordered _ fl t [] l₁ sc l₂ h
+    -- a non-directory root: the only call is for the root itself
+    cases t with
+    | mk name k pl a ch =>
+      unfold createDfs at h
+      by_cases hs : (!isFilenameSane name) = true
+      · rw [if_pos hs] at h; cases l₁ <;> simp at h
+      · rw [if_neg hs] at h
+        cases hp : pathOf name [] with
+        | error e => simp only [TNode.name] at h; rw [hp] at h; cases l₁ <;> simp at h
+        | ok p =>
+          simp only [TNode.name] at h
+          rw [hp] at h
+          rename_i hk
+          simp only [TNode.kind] at hk
+          simp only [if_neg hk] at h
+          rw [Out.seq_evs_none rfl] at h
+          obtain ⟨_, _, hpj⟩ := pathOf_ok hp
+          cases l₁ with
+          | nil =>
+            simp at h
+            refine ⟨[], by rw [← h.1, path_createNode, hpj], (by intro x hx; cases hx), ?_⟩
+            intro pre hp1 hp2 _
+            have : pre = [] := by simpa using hp1
+            subst this
+            simp at hp2
+          | cons e l₁' => simp at h
+
+theorem joinSlash_inj {c₁ c₂ : List Bytes} (h1 : AllGood c₁) (h2 : AllGood c₂) (h : joinSlash c₁ = joinSlash c₂) : c₁ = c₂ := by
+  by_cases e1 : c₁ = []
+  · subst e1
+    by_cases e2 : c₂ = []
+    · exact e2.symm
+    · exact absurd h.symm (by simpa [joinSlash] using (joinSlash_good_ne_nil h2 e2).1)
+  · by_cases e2 : c₂ = []
+    · subst e2
+      exact absurd h (by simpa [joinSlash] using (joinSlash_good_ne_nil h1 e1).1)
+    · rw [← splitSlash_joinSlash_good h1 e1, ← splitSlash_joinSlash_good h2 e2, h]
+
+theorem AllGood.prefix {c pre : List Bytes} (h : AllGood c) (hp : pre <+: c) : AllGood pre :=
+  fun x hx => h x (hp.subset hx)
+
+/-- in the whole plan, each call comes after the `mkdir` of every proper prefix of its path -/
+theorem unpackTree_ordered (ord : List FileEnt → List FileEnt) (hord : OrdOK ord) (fl : Flags) (t t' : TNode)
+    (hs : treeSort t = .ok t') (l₁ : List Ev) (sc : Syscall) (l₂ : List Ev)
+    (h : (unpackTree ord fl t).evs = l₁ ++ Ev.sys sc :: l₂) :
+    ∃ c, sc.path = joinSlash c ∧ AllGood c ∧
+      ∀ pre, pre <+: c → pre ≠ [] → pre ≠ c → ∃ m, Ev.sys (.mkdir (joinSlash pre) m) ∈ l₁ := by
+  have hop : OpFor (visitRoot t') sc := unpackTree_ops ord hord fl t t' hs sc (by
+    rw [Out.mem_syscalls, h]; simp)
+  obtain ⟨c, k, hm, hg, hpath, _⟩ := hop
+  refine ⟨c, hpath, hg, ?_⟩
+  unfold unpackTree at h
+  rw [hs] at h
+  simp only at h
+  have inCreate : ∀ r, (restoreFstree fl t').evs = l₁ ++ Ev.sys sc :: r →
+      ∀ pre, pre <+: c → pre ≠ [] → pre ≠ c → ∃ m, Ev.sys (.mkdir (joinSlash pre) m) ∈ l₁ := by
+    intro r hr pre hp1 hp2 hp3
+    obtain ⟨c', hc1, hgc, hc2⟩ := restoreFstree_ordered fl t' l₁ sc r hr
+    have : c' = c := joinSlash_inj hgc hg (hc1.symm.trans hpath)
+    subst this
+    exact hc2 pre hp1 (by cases pre with | nil => exact absurd rfl hp2 | cons _ _ => simp) hp3
+  cases he : (restoreFstree fl t').err with
+  | some e =>
+    rw [Out.seq_evs_some he] at h
+    exact inCreate l₂ h
+  | none =>
+    rw [Out.seq_evs_none he] at h
+    rcases split_append h with ⟨r, hA⟩ | ⟨a', hl₁, _⟩
+    · exact inCreate r hA
+    · intro pre hp1 hp2 hp3
+      have hd := visitRoot_prefix t' c k pre hm hp1 hp2 hp3
+      obtain ⟨sc', h1, h2, h3, h4⟩ := (restoreFstree_complete fl t' he).1 pre .dir hd
+      obtain ⟨m, hm'⟩ := create_dir_is_mkdir h4 h3
+      refine ⟨m, ?_⟩
+      rw [hl₁, ← h2, ← hm']
+      simp [h1]
+
 end Sqfs.Unpack
